@@ -176,8 +176,18 @@ func (p *Preemptor) initWorkingState() {
 
 				// Cancel reservation based on its priority and waiting time in reservation queue
 				if res.alloc.GetPriority() < p.ask.priority && askAge > reservationWaitTimeout {
-					num := res.app.UnReserve(res.node, res.alloc)
-					res.app.GetQueue().UnReserve(res.app.ApplicationID, num)
+					var num int
+					var queue *Queue
+					if res.app == p.application {
+						// preemption runs inside the scheduling cycle of this application which holds the
+						// application lock already: do not lock again
+						num = res.app.unReserveInternal(res.app.reservations[res.allocKey])
+						queue = res.app.queue
+					} else {
+						num = res.app.UnReserve(res.node, res.alloc)
+						queue = res.app.GetQueue()
+					}
+					queue.UnReserve(res.app.ApplicationID, num)
 					log.Log(log.SchedApplication).Info("Cancelled reservation to consider node for preemption",
 						zap.String("triggered by appID", p.application.ApplicationID),
 						zap.String("triggered by allocationKey", p.ask.allocationKey),
